@@ -191,6 +191,10 @@ func runC05(p *Prog, r *Report) {
 	for _, f := range append([]*ssa.Function{cb.admit, cb.check, cb.setState, cb.serve}, cb.lockRoots...) {
 		r.Fn(FName(f))
 	}
+	// ---- R6 liveness of the lock protocol: no self-deadlock, every lock released (shared with C09.R4 / C09.R3) ----
+	c09Reacquire(p, r, "C05.R6", []*types.Named{cb.typ})
+	r.Floor("C05.R6", LocksetFor(p, cb.typ).LockOps, 6, "lock acquisitions on call paths from the breaker's entry points")
+	r.Floor("C05.R6", c09Pairing(p, r, "C05.R6", "cbreaker"), 4, "lock acquisitions in package cbreaker")
 	// ---- R1 lock discipline ----
 	ls := LocksetFor(p, cb.typ)
 	nW := 0
@@ -280,11 +284,20 @@ func runC05(p *Prog, r *Report) {
 			continue
 		}
 		ok := false
+		var lossy *ssa.Call
 		for _, e := range edgesImplying(p, cb.admit, want) {
 			ifi := e.B.Instrs[len(e.B.Instrs)-1]
 			if OnlyViaEdge(cb.admit, t.Site, e) && lockedAt(cb.admit, ifi) {
+				if c := intTimestampIn(ifi.(*ssa.If).Cond); c != nil {
+					lossy = c
+					continue
+				}
 				ok = true
 			}
+		}
+		if !ok && lossy != nil {
+			r.Fail("C05.R3", tn+": "+label, p.InstrPos(lossy), "the deadline is compared through an integer timestamp ("+calleeObj(lossy.Common()).Name()+"): UnixNano is undefined outside 1678..2262 (a very long fallback duration wraps negative and the shield ends at once), Unix/UnixMilli/UnixMicro truncate (the shield ends up to one unit early); time.Time values must be compared with Before/After/Compare/Sub")
+			continue
 		}
 		r.Check(ok, "C05.R3", tn+": "+label, p.InstrPos(t.Site), "the transition is reachable only on an edge implying "+want.String()+", tested under the exclusive lock",
 			"the transition is not guarded, under the exclusive lock, by the comparison of now with until ("+want.String()+"): the breaker can leave the tripped state before the fallback duration has elapsed (or on a decision taken before the lock)")
@@ -337,6 +350,48 @@ func runC05(p *Prog, r *Report) {
 }
 
 func isFastPath(cb *cbInfo, a Access) bool { return false }
+
+// intTimestampIn returns a call of time.Time.Unix/UnixNano/UnixMilli/UnixMicro among the operands
+// (through arithmetic, conversions and phis) of v, if any.
+func intTimestampIn(v ssa.Value) *ssa.Call {
+	seen := map[ssa.Value]bool{}
+	var walk func(v ssa.Value) *ssa.Call
+	walk = func(v ssa.Value) *ssa.Call {
+		if v == nil || seen[v] {
+			return nil
+		}
+		seen[v] = true
+		switch x := v.(type) {
+		case *ssa.Call:
+			if o := calleeObj(x.Common()); o != nil && o.Pkg() != nil && o.Pkg().Path() == "time" {
+				switch objName(o) {
+				case "Time.Unix", "Time.UnixNano", "Time.UnixMilli", "Time.UnixMicro":
+					return x
+				}
+			}
+			return nil
+		case *ssa.BinOp:
+			if c := walk(x.X); c != nil {
+				return c
+			}
+			return walk(x.Y)
+		case *ssa.UnOp:
+			return walk(x.X)
+		case *ssa.Convert:
+			return walk(x.X)
+		case *ssa.ChangeType:
+			return walk(x.X)
+		case *ssa.Phi:
+			for _, e := range x.Edges {
+				if c := walk(e); c != nil {
+					return c
+				}
+			}
+		}
+		return nil
+	}
+	return walk(v)
+}
 
 func siteOrdinal(fn *ssa.Function, site ssa.Instruction) int {
 	n := 0
@@ -403,6 +458,9 @@ func runC12(p *Prog, r *Report) {
 	if cb == nil {
 		return
 	}
+	// ---- R5: every request leaves the breaker's lock released, so the first request after recovery is not stuck behind an earlier one (shared with C09.R3 / C09.R4) ----
+	r.Floor("C12.R5", c09Pairing(p, r, "C12.R5", "cbreaker"), 4, "lock acquisitions in package cbreaker")
+	c09Reacquire(p, r, "C12.R5", []*types.Named{cb.typ})
 	rc := p.Named("cbreaker", "ratioController")
 	if rc == nil {
 		r.Anchor("C12.R1", "cbreaker.ratioController", "type not found")
@@ -667,6 +725,13 @@ func runC18(p *Prog, r *Report) {
 		return
 	}
 	tn := "cbreaker.CircuitBreaker"
+	// ---- R5: the recorded responses are the ones the condition sees: no update of the metrics is lost (shared with C09.R1) ----
+	if rt := p.Named("memmetrics", "RTMetrics"); rt != nil {
+		n := c09Races(p, r, "C18.R5", []*types.Named{rt})
+		r.Floor("C18.R5", n, 8, "written shared locations of memmetrics.RTMetrics")
+	} else {
+		r.Anchor("C18.R5", "memmetrics.RTMetrics", "type not found")
+	}
 	// ---- R1 ----
 	funcs := checkOperatorTable(p, r, "C18.R1", "cbreaker")
 	if funcs != nil {
